@@ -85,16 +85,21 @@ func (s *StoreManager) Deliver(
 	}
 
 	// Construct InboundMessage event and process through extensions.
+	// Extensions are handed copies of the addresses, a listener that fails after modifying them
+	// must not alter the message.
 	inbound := &event.InboundMessage{
 		Mailboxes: mailboxes,
-		From:      fromAddrs[0],
-		To:        toAddrs,
+		From:      cloneAddress(fromAddrs[0]),
+		To:        cloneAddresses(toAddrs),
 		Subject:   subject,
 		Size:      int64(len(source)),
 	}
 
 	extResult := s.ExtHost.Events.BeforeMessageStored.Emit(inbound)
 	if extResult == nil {
+		inbound.From = fromAddrs[0]
+		inbound.To = toAddrs
+
 		// Use address policy to determine deliverable mailboxes.
 		mailboxes = mailboxes[:0]
 		for _, recip := range recipients {
@@ -139,6 +144,27 @@ func (s *StoreManager) Deliver(
 	}
 
 	return nil
+}
+
+// cloneAddress returns a copy of the address, or nil.
+func cloneAddress(a *mail.Address) *mail.Address {
+	if a == nil {
+		return nil
+	}
+	c := *a
+	return &c
+}
+
+// cloneAddresses returns a deep copy of the address list.
+func cloneAddresses(list []*mail.Address) []*mail.Address {
+	if list == nil {
+		return nil
+	}
+	c := make([]*mail.Address, len(list))
+	for i, a := range list {
+		c[i] = cloneAddress(a)
+	}
+	return c
 }
 
 // GetMetadata returns a slice of metadata for the specified mailbox.
